@@ -59,7 +59,7 @@ AKF(id) == 16 + 2 * 256 + 3 * 4096 + (4 + (id % 2)) * 1048576 + 6 * 16777216 + 7
 NodeRec(id, op, kids, p, iop, ikids, en, sw, lim) ==
    [id |-> id, op |-> op, kids |-> kids, p |-> p, iop |-> iop, ikids |-> ikids, ip |-> p, en |-> en, vid |-> id, ak |-> IF en = 0 THEN 0 ELSE IF sw > 0 THEN AKF(id) - (4 + (id % 2)) * 1048576 ELSE AKF(id),   \* a rule with a switch has the change_* class as its family-5 action;     \* nobody attaches actions to internal rules
    
-    sel |-> 0, lim |-> lim, sw |-> sw, named |-> 0, s |-> "", dn |-> "n", name |-> "n", hasmsg |-> 0, emsg |-> "", thas |-> 0, tmsg |-> "",
+    sel |-> 0, lim |-> lim, sw |-> sw, named |-> 0, s |-> "", dn |-> "n", name |-> "n", hasmsg |-> 0, emsg |-> "", thas |-> 0, tmsg |-> "", mihas |-> 0, mimsg |-> "", mirof |-> -1,
     prop |-> "C01"]
 AtomSpecs == <<<<"any", <<>>>>, <<"one", <<97>>>>, <<"string", <<97, 98>>>>, <<"eof", <<>>>>, <<"success", <<>>>>, <<"failure", <<>>>>>>
              \o (IF Wide /\ ExcOps THEN <<<<"raise", <<2>>>>>> ELSE <<>>)          \* raise< one< 'a' > >
@@ -110,7 +110,7 @@ M == INSTANCE PegMachine WITH Nodes <- GNodes, W <- w, Cfg <- cfg
 C == INSTANCE PegContract WITH Nodes <- GNodes
 D == INSTANCE PegDen WITH Nodes <- GNodes, W <- w
 
-DenCtx == [A |-> cfg.A, lim |-> Len(w), fam |-> cfg.af, vis |-> IF cfg.cf \in {3, 4} THEN 1 ELSE 0, eol |-> 3, ib |-> 0, il |-> 1, ic |-> 1, dep |-> 0]
+DenCtx == [A |-> cfg.A, lim |-> Len(w), fam |-> cfg.af, vis |-> IF cfg.cf \in {3, 4} THEN 1 ELSE 0, eol |-> 3, ib |-> 0, il |-> 1, ic |-> 1, dep |-> 0, mi |-> 0]
 Fuel == 10
 
 \* The documented expansions of if_then_else and until mention the condition twice, once under not_at (actions
